@@ -26,7 +26,8 @@ CHECKS = {
         text='Every one of the 23,111 field rows and 11,765 component/subcomponent rows of the 12 versions is driven through '
              'the real code (set by name -> encode -> count separators -> parse -> read back by name) with the row index '
              'symbolic and exhausted by CrossHair/z3; every segment entry and complex datatype is instantiated; Z-segments and '
-             'varies-tailed segments are checked for every index pair i<j up to 24 (96 thorough) beyond the defined count. '
+             'varies-tailed segments are checked for every index pair i<j up to 24 (96 thorough) beyond the defined count; every field of '
+             'type varies is written component by component (j<=4, whole or by subcomponent text) in 4 ways and parsed back. '
              'Independently z3 decides, per segment/datatype table, that child numbers are strictly increasing (fields) / equal '
              'to ordinal+1 (components). Exhaustive over the finite table domain, bounded for open-ended indices.',
         note='Per row the solver contributes exhaustion, not abstraction (each row is a distinct dict key); the library runs '
@@ -37,9 +38,10 @@ CHECKS = {
         technique='solver-based: CrossHair/z3 exhaustion of a symbolic bounded operation history on real hl7apy elements, '
                   'compared step by step with a list reference model',
         text='Bounded model checking over operation histories: every history of length <=2 over the full operation '
-             'alphabet (set by name/long name, add, add_<child>, proxy[i]=, del by name/index, remove, copy, assign element) '
+             'alphabet (set by name/long name, add, add_<child>, proxy[i]=, del by name/index/children position, remove, copy, assign element, '
+             'assign base datatype object, nested set) '
              'and every history of length 3 over the core alphabet (thorough: length 3 over the full alphabet) on a PID '
-             'segment and an ADT_A01 message, from 2-3 initial states; after every step the encoding must equal the '
+             'segment, an ADT_A01 message and a PID_5 field, from 2-3 initial states; after every step the encoding must equal the '
              'reference list model\'s. Exhaustive inside the bound (CrossHair "Confirmed over all paths" per piece).',
         note='Action indices are symbolic; z3 enumerates/exhausts the finite action space, the library runs concretely per '
              'path (a history of small integers leaves nothing to abstract). Trusted: reference model/encoder in '
@@ -97,13 +99,14 @@ ALL = {
              'must validate; single-point mutations (drop required, repeat non-repeatable, unknown child, wrong datatype, foreign '
              'segment) must fail with an error naming the element; on every case validate() leaves to_er7() unchanged, is '
              'deterministic, is_valid == no errors, the raising form raises errors[0], the report file lists exactly the errors '
-             'and warnings. Quick: ~300 segments and 12 structures; thorough: all segments, 72 structures.',
+             'and warnings (report given as a stream and as a path, read while the raised error is alive). Quick: ~300 segments and 36 '
+             'structures; thorough: all segments, 172 structures. A choice group is instantiated by one alternative.',
         note='Builder values are one token per base datatype; structures outside the slice are outside the claim.',
         ref='DESIGN.md §3 C04'),
     'C05': dict(
         technique='solver-based: CrossHair/z3 exhaustion of symbolic (typed position, literal) pairs and of bounded histories run '
                   'under both validation levels',
-        text='Bounded model checking: 16 typed positions x 37 valid/invalid literals, and every history of length <=2 over the C09 '
+        text='Bounded model checking: 19 typed positions x 39 valid/invalid literals, 17 API attempts, and every history of length <=2 over the C09 '
              'alphabet on a segment, a message and a field: whatever STRICT accepts TOLERANT accepts with the same encoding and '
              'report, and a STRICT-accepted element draws no validator error other than missing required children.',
         note='Deep lexical side of DT/TM/DTM/NM/SI is C13. v2.5.',
@@ -118,17 +121,21 @@ ALL = {
              'marks to the 4-5 delimiter roles (symbolic), z3 shows: no delimiter in the output, the output tokenises into ordinary '
              'characters and ESC-letter-ESC (modulo the recorded dangling-escape family), escaping again changes nothing, well-formed '
              'delimiter-free input is unchanged. The unmodified class with the real re module is cross-checked on every string of '
-             'length <=4 over a 12-character alphabet, and assignment through datatype objects keeps separator counts.',
+             'length <=4 over a 12-character alphabet, assignment through datatype objects keeps separator counts, and for every ordered '
+             'pair of 30 encodings run in a fresh process the second result equals the one it gives alone. Thorough: obligation queries '
+             'up to n=12 are decided a second time by cvc5.',
         note='The classes are the real ones; only the name `re` in the two base_datatypes modules is bound to a shim that evaluates '
              'the look-around regex (as built by the code, parsed by CPython) on guarded slots. Every model is replayed on the '
              'unmodified library. Highlights, non-ASCII and multi-letter escapes are outside.',
         ref='DESIGN.md §3 C06'),
     'C07': dict(
-        technique='solver-based: CrossHair/z3 symbolic execution of parser._split_msh/get_message_info on 5-6 fully symbolic '
-                  'delimiter characters; CrossHair/z3 exhaustion of all role assignments over a candidate set at message level',
+        technique='solver-based: CrossHair/z3 exhaustion of every equality pattern x blank class x character pool of the 5-6 header '
+                  'characters through parser._split_msh/get_message_info; CrossHair/z3 exhaustion of all role assignments over a '
+                  'candidate set at message level',
         text='(H) get_message_info returns exactly the given characters or raises InvalidEncodingChars iff two are equal / one is '
-             'blank / a fifth is given below 2.7 - for ALL non-alphanumeric characters (symbolic); (M) every injective assignment '
-             'of 5 and 6 roles to a 7-character (thorough 8) candidate set x 4 versions: Message(..., encoding_chars) encodes '
+             'blank / a fifth is given below 2.7 - for every equality pattern of the 5/6 characters x which class is blank x 3 '
+             'punctuation pools (fully symbolic characters did not confirm, see DESIGN.md §1); (M) every injective assignment '
+             'of 5 and 6 roles to a 6-character (thorough 8) candidate set x 4 versions: Message(..., encoding_chars) encodes '
              'exactly the reference text, encoding_chars reads back on the message and on every descendant, to_mllp, and '
              'parse_message round trip.',
         note='Fully symbolic delimiters cannot pass str.split under CrossHair: message level uses a finite candidate set.',
@@ -136,7 +143,7 @@ ALL = {
     'C08': dict(
         technique='solver-based: CrossHair/z3 exhaustion of symbolic instance choices (presence bits, repetition counts) of message '
                   'structures through the real group-finding parser, compared with a reference expander',
-        text='Bounded model checking: 24 structures (thorough 200, seeded) x 256 instances each: every parsed element is a declared '
+        text='Bounded model checking: 64 structures (thorough 400, seeded) x 256 instances each, TOLERANT and STRICT: every parsed element is a declared '
              'child of its parent, flattening gives the input sequence, find_groups=False encodes identically, and for structures '
              'with unique segment names the tree equals the reference tree and has no structural validation error.',
         note='Instances: first 6 optional children, up to 2 repeated groups whose first member is required and non-repeatable.',
@@ -144,10 +151,10 @@ ALL = {
     'C11': dict(
         technique='solver-based: CrossHair/z3 exhaustion of symbolic navigation-chain descriptors on real elements with before/after '
                   'snapshots',
-        text='Bounded model checking: 360 read chains (3 targets x 6 paths x depth<=5 x 4 spellings) x 10 terminal observations x 1-3 '
+        text='Bounded model checking: ~480 read chains (3 targets x 8 paths incl. an open-ended segment and a varies field x depth<=5 x 4 spellings) x 10 terminal observations x 1-3 '
              'repetitions x 2 levels leave encoding, children tree and validation report unchanged; a write at the end of each '
              'chain creates one element per level at its defined position and a second identical write adds nothing.',
-        note='v2.5; the 6 listed navigation paths.',
+        note='v2.5; the 8 listed navigation paths.',
         ref='DESIGN.md §3 C11'),
     'C13': dict(
         technique='solver-based: hl7apy/utils.py, factories.py and base_datatypes.py re-executed from source on bounded symbolic '
@@ -158,11 +165,12 @@ ALL = {
              'over the alphabet 0-9 . + - blank A _ newline E, every feasible path through the real length dispatch, offset regex, '
              'precision, offset range, strptime/strftime, int, Decimal is explored; z3 shows STRICT-accepted => HL7 grammar, grammar => '
              'accepted, accepted => to_er7() == text (canonical numerics), TOLERANT never raises and keeps the text, over-long => '
-             'MaxLengthReached - modulo the recorded library-leniency family. A 126-literal boundary grid runs through the unmodified '
-             'library.',
+             'MaxLengthReached - modulo the recorded library-leniency family. datatype_factory dispatches per version: full lengths in '
+             'v2.5, lengths up to 6 (8) in every other version that has the datatype. A boundary grid of 134 literals x every version '
+             '(1 345 points) runs through the unmodified library. Thorough: every obligation query is decided a second time (z3 4.8.12 / cvc5).',
         note='strptime/strftime/int/Decimal/re.search are shims fed with CPython\'s own data and validated on every run against the '
-             'real functions (252 cases); spellings CPython accepts outside the fixed-width forms are flagged lenient and not '
-             'modelled in value. Years below 1000, non-ASCII digits, longer strings are outside.',
+             'real functions (260 cases); spellings CPython accepts outside the fixed-width forms are flagged lenient and not '
+             'modelled in value; Decimal.__str__ (scientific notation for small magnitudes) is modelled exactly. Years below 1000, non-ASCII digits, longer strings are outside.',
         ref='DESIGN.md §3 C13'),
     'C14': dict(
         technique='solver-based: CrossHair/z3 exhaustion of symbolic table-row indices (ALL rows) through the real name / long-name / '
@@ -185,24 +193,27 @@ ALL = {
     'C17': dict(
         technique='solver-based: CrossHair/z3 exhaustion of symbolic process defaults (version x level x delimiter set) against a '
                   'corpus of calls with explicit arguments',
-        text='Bounded model checking: 12 default versions x 2 levels x 3 delimiter sets x 24 corpus calls give the same observable '
+        text='Bounded model checking: 12 default versions x 2 levels x 3 delimiter sets x 29 corpus calls give the same observable '
              'signature as under pristine defaults; changing the defaults does not alter 5 kinds of existing elements.',
         note='Corpus in harness/corpus.py; calls outside it are outside the claim.',
         ref='DESIGN.md §3 C17'),
     'C18': dict(
         technique='solver-based: CrossHair/z3 exhaustion of symbolic (structure, profile edit, target, creation path)',
-        text='Bounded model checking: profiles synthesised by one edit (identity, tighten, require, forbid, retype) from 3 (11) '
-             'standard structures x 3 creation paths: children take datatype/cardinality from the profile, validate() follows the '
-             'profile where it differs and the identity profile changes nothing; MessageProfileNotFound / LegacyMessageProfile; '
-             'shipped iti_21 / old_pharm_h4 profiles.',
-        note='Edits of top-level children only.',
+        text='Bounded model checking: profiles synthesised by one edit (identity, tighten, require, forbid, retype, retype inside a '
+             'repeated group, retype of one subcomponent) from 41 (131) standard structures x 5 creation paths (parse, traversal, add_*, '
+             'parse without group-finding, whole-message assignment) and, for the subcomponent edit, 6 ways of creating the child x '
+             'both levels: children take datatype/cardinality from the profile, validate() follows the profile where it differs '
+             'and the identity profile changes nothing; MessageProfileNotFound / LegacyMessageProfile; lower-case names; shipped '
+             'iti_21 / old_pharm_h4 profiles.',
+        note='One edit per profile; edits of top-level children, of one field of a segment (also inside a repeated group) or of one '
+             'subcomponent.',
         ref='DESIGN.md §3 C18'),
     'C19': dict(
         category='exploration',
         technique='solver-based: CrossHair/z3 exhaustion of SERIAL schedules (ordered pairs / triples of corpus calls) - a necessary '
                   'condition of the property; pre-emptive interleavings are outside the technique',
-        text='Only the call-boundary part of the schedule space: for every ordered pair (thorough: triple) of 24 corpus calls of '
-             'mixed versions and levels, the last call returns what it returns when run alone. This detects shared-state '
+        text='Only the call-boundary part of the schedule space: for every ordered pair and triple of 29 corpus calls of '
+             'mixed versions and levels, each schedule in a fresh forked process, the last call returns what it returns when run alone. This detects shared-state '
              'poisoning of the kind fixed in 1.3.5 (#95); it says nothing about context switches inside a call.',
         note='CrossHair has no thread model: interleavings inside a call cannot be encoded. Stated as exploration-level for that reason.',
         ref='DESIGN.md §3 C19'),
